@@ -604,6 +604,10 @@ class ExprMixin:
             r = h(self, v, i, st, node)
             if r is not None:
                 return r
+        if isinstance(v, VObj):
+            key, m = self.src.method(v.cls, '__getitem__')
+            if m is not None and key in self.reg.fns:
+                return self.call_key(key, m, [v, i], {}, st, node)
         if isinstance(v, (VOpaque, VObj)):
             return [(st, VOpaque(hint='item'))] + self.maybe_raise(st, 'index', node)
         raise Refuse(f"index of {v!r} by {i!r} at line {node.lineno}")
@@ -637,7 +641,7 @@ class ExprMixin:
         g = e.generators[0]
 
         def run(s, it):
-            if isinstance(it, (VList, VTuple)):
+            if isinstance(it, (VList, VTuple)) and not (it.items and isinstance(it.items[0], str)):
                 outs = [(s, [])]
                 saved = dict(s.env)
                 for item in it.items:
@@ -692,12 +696,23 @@ class ExprMixin:
                 r = h(self, e, kind, it, s)
                 if r is not None:
                     return r
-            if isinstance(it, VOpaque) and self.opaque_comprehensions:
+            generic = isinstance(it, VOpaque) or (isinstance(it, VTuple) and it.items and isinstance(it.items[0], str)
+                                                  and it.items[0] in ('zip', 'enumerate', 'range'))
+            if generic and self.opaque_comprehensions:
                 # element-wise computation over an unknown collection: evaluate the body once on a
                 # generic element to discover effects/exceptions; the result is opaque
                 s1 = s.fork()
-                self.assign_target(g.target, VOpaque(hint='elem'), s1)
+                if isinstance(it, VTuple) and it.items[0] == 'zip':
+                    elem0 = VTuple([VOpaque(hint='elem') for _ in it.items[1:]])
+                elif isinstance(it, VTuple) and it.items[0] == 'enumerate':
+                    elem0 = VTuple([fresh(Int, 'i'), VOpaque(hint='elem')])
+                elif isinstance(it, VTuple):
+                    elem0 = fresh(Int, 'i')
+                else:
+                    elem0 = VOpaque(hint='elem')
+                self.assign_target(g.target, elem0, s1)
                 outs = []
+                effect_states = []
                 for c in g.ifs:
                     for s2, cv in self.ev(c, s1):
                         if isinstance(cv, Raised):
@@ -707,8 +722,13 @@ class ExprMixin:
                     if isinstance(v, Raised):
                         outs.append((s2, v))
                     elif not same_store(s2, s, env=False):
-                        raise Refuse(f"comprehension over opaque collection with effects (line {e.lineno})")
-                return [(s, VOpaque(hint='comp'))] + outs
+                        if not getattr(self.cur, 'idempotent_effects', False):
+                            raise Refuse(f"comprehension over opaque collection with effects (line {e.lineno})")
+                        # the contract declares that the effect summary of the calls in the body is reflexive and
+                        # transitive (one application summarises any number of iterations): keep the post-state
+                        s2.env = dict(s.env)
+                        effect_states.append((s2, VOpaque(hint='comp', nonnull=True)))
+                return [(s, VOpaque(hint='comp', nonnull=True))] + effect_states + outs
             raise Refuse(f"comprehension over {it!r} at line {e.lineno}")
         return self.bind(self.ev(g.iter, st), run)
 
